@@ -64,7 +64,10 @@ def gen_case(rng, quick):
         case["prefit"] = dict(X=S.gen_matrix(rng, n, d, rng.choice(S.FAMILIES)),
                               y=None if case["y"] is None else S.gen_y(rng, n, len(case["y"][0])),
                               nts=rng.randint(ninit, ncand))
-    return case
+    # input presentation: the same lattice as int8/uint8/int16/int32/int64/float32 array, nested list,
+    # Fortran-ordered array or strided view (values kept representable) - fit must convert to float
+    # before computing anything, so the results are bit-identical to the float64 presentation
+    return F.choose_presentation(rng, case)
 
 
 def run_impl(case):
@@ -82,12 +85,13 @@ def run_impl(case):
     pre = case.get("prefit")
     if pre is not None:
         pre = dict(pre, X=sc(pre["X"]), y=sc(pre["y"]))
-    out, sel = S.run_chain(case["kind"], case["axis"], sc(case["X"]), sc(case["y"]), case["init"], stages,
-                           extra=extra, scale=scale * 2.0 ** (-2 * sp), prefit=pre, data_scale=2.0 ** (-sp))
+    how = case.get("present", "float64")
+    out, sel = F.run_chain_present(case["kind"], case["axis"], sc(case["X"]), sc(case["y"]), case["init"], stages, how,
+                                   extra=extra, scale=scale * 2.0 ** (-2 * sp), prefit=pre, data_scale=2.0 ** (-sp))
     rec = out[0]
     if case["init"] == "random" and "error" not in rec:
-        out2, _ = S.run_chain(case["kind"], case["axis"], sc(case["X"]), sc(case["y"]), case["init"], stages[:1],
-                              extra=extra, scale=scale * 2.0 ** (-2 * sp), data_scale=2.0 ** (-sp))
+        out2, _ = F.run_chain_present(case["kind"], case["axis"], sc(case["X"]), sc(case["y"]), case["init"], stages[:1],
+                                      how, extra=extra, scale=scale * 2.0 ** (-2 * sp), data_scale=2.0 ** (-sp))
         rec["sel_again"] = out2[0]["obs"]["sel"] if "obs" in out2[0] else ["raised"]
     if len(out) > 1:
         rec["warm"] = out[1]
@@ -389,6 +393,8 @@ def run(ctx):
         stats["scaled"] = stats.get("scaled", 0) + (c.get("scale_pow", 0) != 0)
         stats["prefit_history"] = stats.get("prefit_history", 0) + ("prefit" in c)
         stats["warm_continued"] = stats.get("warm_continued", 0) + bool(c.get("nts2"))
+        pr = stats.setdefault("presentations", {})
+        pr[c.get("present", "float64")] = pr.get(c.get("present", "float64"), 0) + 1
         stats["pcov_multi_target"] = stats.get("pcov_multi_target", 0) + (c["kind"] == "pcovfps" and len(c["y"][0]) > 1)
     # distinct / non-trivial: >= 3 steps, and a tie or a running-minimum update occurred
     seen, nontrivial = set(), 0
